@@ -7,6 +7,7 @@ import BytomModel.Drv.Util
          hint = the error class the implementation returned ("gas" ⇒ the Go map iteration
                 visited the BTM entry before any unbalanced asset; anything else ⇒ after):
                 it resolves the ONLY nondeterminism of ValidateTx, the order of `range parity`.
+   op:   reset | reset-batch <n>   → ok   (the next n tx lines are the members of one ValidateTxs batch)
    out:  ok <BTMValue> <GasLeft> <GasUsed> <StorageGas> fee=<Fee()>   |   err <class> fee=<Fee()> -/
 namespace BytomModel.Drv.C01
 open BytomModel.Drv BytomModel.Model.TxValidate
@@ -45,6 +46,9 @@ def parseTx (w : List String) : Option (Ctx × String × Tx) :=
   | _ => none
 
 def step (_ : Unit) (line : String) : Unit × String :=
+  -- `reset` / `reset-batch <n>`: cut points of the stream; the following n tx lines of a batch were
+  -- validated TOGETHER by validation.ValidateTxs and must still get the single-transaction answer
+  if line.startsWith "reset" then ((), "ok") else
   let out := match parseTx (words line) with
     | none => "bad-op"
     | some (ctx, hint, tx) =>
